@@ -96,7 +96,7 @@ class Sim:
         out = self.pool.call(hs, job)
         with self.ref_lock:
             self.ref_jobs += 1
-            self.refs_computed += len(obs)
+            self.refs_computed += out.get("forked_compiles", len(obs))
         return out
 
     @staticmethod
